@@ -59,7 +59,7 @@ package dns
 // one inbound message: a header that does not decode gets no reply and no handler call; the handler runs only
 // for an accepted message that decoded; a rejected or undecodable message gets FORMERR (NOTIMP when the
 // policy says so) with the request's ID and no records; an ignored one gets nothing
-//@ func (*Server).serveDNS [C14]
+//@ func (*Server).serveDNS [C14 C12:fullsize]
 //@   opt no-safety
 //@   requires srv != nil && w != nil
 //@   callsite "ServeDNS" decoded: action == MsgAccept && called("unpack") && callres("unpack") == nil
@@ -70,6 +70,8 @@ package dns
 //@   callsite "WriteMsg" replyqr: arg1.Response
 //@   callsite "WriteMsg" replyrc: arg1.Rcode == (action == MsgRejectNotImplemented ? 4 : 1)
 //@   callsite "WriteMsg" replyempty: len(arg1.Answer) == 0 && len(arg1.Ns) == 0 && len(arg1.Extra) == 0
+// a receive buffer goes back to the pool at its full size (the reader had shortened it to the datagram)
+//@   callsite "Put" fullsize: arg1 == box(m[0:srv.UDPSize]) && w.udp != nil && cap(m) == srv.UDPSize [C12 C14]
 //@   exit hdrerr: callres("unpackMsgHdr", 2) != nil ==> !called("WriteMsg") && !called("ServeDNS")
 //@   exit ignored: action == MsgIgnore ==> !called("WriteMsg") && !called("ServeDNS")
 //@   exit reported: callres("unpackMsgHdr", 2) != nil || (called("unpack") && callres("unpack") != nil) ==> called("MsgInvalidFunc")
@@ -159,10 +161,11 @@ package dns
 
 // the datagram loop: a datagram shorter than a header is reported to the invalid-message callback and never
 // served; every other datagram read without error is handed to serveUDPPacket (goroutine mechanics abstracted)
-//@ func (*Server).serveUDP [C14]
+//@ func (*Server).serveUDP [C14 C12:fullsize]
 //@   opt no-safety
 //@   requires srv != nil
 //@   callsite "MsgInvalidFunc" short: len(arg0) < 12 && same(arg0, m)
+//@   callsite "Put" fullsize: arg1 == box(m[0:srv.UDPSize]) && cap(m) == srv.UDPSize [C12 C14]
 //@   assert at "wg.Add(1)" whole: len(m) >= 12 && err == nil
 //@ func (*Server).serveUDPPacket [C14 C12]
 //@   opt no-safety
